@@ -451,6 +451,9 @@ func genSendTokNoRaw(r *Rng) string {
 func init() {
 	opsArgs["WSEQ"] = runWSeq
 	suites["wsclient"] = func(o *Out, r *Rng, n int, tier string) {
+		for _, sz := range writerEdgeSizes {
+			o.emit("C17", "WSEQ", "CON(ok;ok)", fmt.Sprintf("SND(%s;-)", pfmOfSize(r, sz)), fmt.Sprintf("RAW(%s;-)", hx(r.Bytes(3))))
+		}
 		for i := 0; i < n; i++ {
 			var args []string
 			if r.Chance(75) {
